@@ -25,7 +25,14 @@ var tmplFS embed.FS
 
 const ModPath = "scratch.x/w"
 
-var RepoDir = "/repo"
+// RepoDir is the tree gocc is built from: /repo's working tree. VERIF_REPO overrides it
+// for the harness's own validation runs against scratch worktrees (seeded changes).
+var RepoDir = func() string {
+	if v := os.Getenv("VERIF_REPO"); v != "" {
+		return v
+	}
+	return "/repo"
+}()
 
 // GoBin is the Go command used for every build (resolved by env.sh into $VGO).
 func GoBin() string {
